@@ -193,3 +193,25 @@ PROPS["C10"] = {
     "level_text": "For small k-mer types every ordered pair (and triple) is compared by the real Ord and must equal both the numeric order of the packed integers and the model's last-symbol-first comparison; for large K and for owned sequences up to 3 words, the pairs that separate colexicographic from any first-symbol-first order are enumerated at every position.",
     "level_note": "Pairs of long k-mers differing in several positions are covered by transitivity plus one-position families only.",
 }
+
+PROPS["C18"] = {
+    "parts": [{"kind": "bin", "bin": "c18"}],
+    "rule": "E2: for all 7 codecs and every word-boundary length, every producer of an owned sequence (bsv/src/producers.rs: parsed, collected, copies of offset slices, rev/comp/mask and bitwise results, edit histories leaving dead bits / kept allocations, empty values with a history, with_capacity) plus values deserialized with every chosen non-zero head and set dead bits, through bincode and serde_json; for every k-mer type in the K set all contents (<= 4096) or the P(K) family through both formats",
+    "bound": {"quick": "WB(2 words)+{4,5,7}; 4 copy offsets; 11 heads; reduced K set", "thorough": "WB(3 words); every copy offset; all 63 heads; every K (634 types)"},
+    "assumptions": COMMON_ASSUME + [SEP, "bincode 1.3 and serde_json as pinned are part of the environment, not of the subject"],
+    "technique": "bounded-exhaustive enumeration of owned-sequence histories x lengths and of k-mer types x contents on the real Serialize/Deserialize impls, with a differential oracle from the deserialized (non-initial) state",
+    "level_text": "Every way of producing an owned sequence that the harness knows (about 70 producers, including non-zero heads and dead bits) at every word-boundary length, and every k-mer type in the K set, is serialized and deserialized by the real impls in both formats; the result must equal the original, hash and display alike, and behave alike under further edits.",
+    "level_note": "Producers are a finite hand-listed set; other serde formats are not covered.",
+}
+
+PROPS["C15"] = {
+    "parts": [{"kind": "bin", "bin": "c15"}],
+    "exhaustive_flags": ["all n! source-map iteration orders were driven through from_map for every map"],
+    "rule": "E1 over construction orders + E2 over queries: every partial map from a universe of 6 codons (lengths 1..4) to 3 amino symbols (4^6 assignments, DNA and IUPAC codons) with at most max_entries entries; for each map the source HashMap is rebuilt with fresh RandomStates until every one of its n! iteration orders has been observed (before the call) and passed through CodonTable::from_map; each constructed table is queried with every universe codon and 7 non-key codons as slices at every offset, and with every amino of the universe. States = (map, order) pairs; a transition = one from_map construction",
+    "bound": {"quick": "maps with <= 5 entries (all 120 orders each)", "thorough": "all 4096 maps (<= 6 entries, all 720 orders each)"},
+    "assumptions": COMMON_ASSUME + ["iterating an unmodified HashMap twice yields the same order (std guarantee), so the order read before from_map is the order from_map sees",
+        "construction from arrays cannot expose its order and is labelled supplementary repetition", "error payloads are not compared, only the error kind"],
+    "technique": "exhaustive enumeration of the one nondeterministic environment answer (hash-map iteration order: all n! orders per map) and of all small maps on the real CodonTable, against the map itself as oracle",
+    "level_text": "Every partial map in the universe and every iteration order of its source HashMap is driven through the real from_map; forward lookups (keys and non-keys at every slice offset) and reverse lookups (0, 1, 2, 3+ preimages) are compared with the map itself, so independence of iteration order is decided exhaustively within the universe.",
+    "level_note": "Universe of 6 codons / 3 aminos; larger maps behave the same by symmetry of the bookkeeping but are not enumerated.",
+}
